@@ -44,4 +44,16 @@ META = {
         "note": "Names are excluded here (C09). Kafka downstream not exercised.",
         "technique": "property-based testing (rapid), field-by-field differential with the source message",
     },
+    "C01": {
+        "text": "Generated catalogs, pack scripts and registration/arrival interleavings are run through the real replicateChannelManager between a fake dispatcher and its public output channels; after goroutine-level quiescence a two-sided oracle compares everything fed with everything emitted (tags make every row attributable). Found the nil-position defect (fixed) and the forward/tick overtake (known finding).",
+        "design_ref": "DESIGN.md section 4 C01",
+        "note": "Schedules: only registration-vs-arrival order and the natural concurrency of handler goroutines are explored; Go scheduler interleavings are sampled. Fake dispatcher delivers packs shaped like the real one (nil / pchannel positions, BeginTs=0).",
+        "technique": "property-based testing (rapid), stateful generation, two-sided multiset/sequence oracle",
+    },
+    "C02": {
+        "text": "Same runs as C01 with an addressing/routing oracle on every emitted message: ids, shard bijection, output channel, position channel names and message ids, for aligned and skewed placements.",
+        "design_ref": "DESIGN.md section 4 C02",
+        "note": "Downstream described by a fake api.TargetAPI; the pairing the code chooses is only required to be a bijection.",
+        "technique": "property-based testing (rapid), validity-predicate oracle over emitted messages",
+    },
 }
